@@ -839,6 +839,9 @@ class EReference(EStructuralFeature):
 
     @eOpposite.setter
     def eOpposite(self, value):
+        # (this property stands in for a feature typed EReference)
+        if value is not None and not isinstance(value, (EReference, EProxy)):
+            raise BadValueError(got=value, expected=EReference)
         previous = self.__dict__.get('_eopposite')
         self._eopposite = value
         if value:
